@@ -205,6 +205,63 @@ func init() {
 				executors[op["op"].(string)](c, "deterministic.model", op)
 			}
 		}},
+		Stream{"returned.records", func(c *Ctx) {
+			// a record handed out earlier — by storage or by a ceremony — is never modified by a later ceremony: one owner registers an id,
+			// authenticates, re-registers it with another authenticator, authenticates again; every *Credential seen so far is re-read after each step
+			n := c.N(40, 2000)
+			for i := 0; i < n; i++ {
+				u := newUniverse(c.R, 1, 3, 1)
+				owner, id := u.users[0], u.ids[0]
+				render := func(cr *webauthn.Credential) string {
+					return fmt.Sprintf("%#v", *cr) + full(cr.ID) + full(cr.OwnerID) + full(cr.PublicKey)
+				}
+				for _, real := range []bool{true, false} {
+					var st webauthn.CredentialStorage
+					fs := storeFromOp(M{})
+					if real {
+						st = webauthn.NewInMemoryCredentialStorage()
+					} else {
+						st = fs
+					}
+					rp := webauthn.NewRelyingParty(u.origin, st)
+					type seen struct {
+						p    *webauthn.Credential
+						snap string
+						from string
+					}
+					var held []seen
+					changed := ""
+					steps := []M{u.regOp(c.R, owner, u.auths[0], id, ""), u.authOp(c.R, owner, u.auths[0], id, ""), u.regOp(c.R, owner, u.auths[1], id, ""),
+						u.authOp(c.R, owner, u.auths[1], id, ""), u.regOp(c.R, owner, u.auths[2], id, ""), u.authOp(c.R, owner, u.auths[0], id, "")}
+					for k, op := range steps {
+						op["op"] = op["kind"]
+						g := goCeremonyFromOpPlain(op)
+						guard(func() M {
+							var res *webauthn.Credential
+							if g.kind == "register" {
+								res, _ = rp.VerifyRegistrationCeremony(context.Background(), g.regOpts, g.regCred)
+							} else {
+								res, _ = rp.VerifyAuthenticationCeremony(context.Background(), g.authO, g.authC)
+							}
+							for _, h := range held {
+								if render(h.p) != h.snap && changed == "" {
+									changed = fmt.Sprintf("record from %s changed during step %d (%v)", h.from, k, op["kind"])
+								}
+							}
+							if res != nil {
+								held = append(held, seen{res, render(res), fmt.Sprintf("ceremony %d", k)})
+							}
+							if cur, err := st.GetCredential(context.Background(), id); err == nil && cur != nil {
+								held = append(held, seen{cur, render(cur), fmt.Sprintf("storage after step %d", k)})
+							}
+							return nil
+						})
+					}
+					c.Compare("returned.records", M{"op": "returned.records", "origin": hx([]byte(u.origin)), "realStorage": real, "steps": steps},
+						M{"changed": changed}, M{"changed": ""}, fmt.Sprintf("real=%v", real), true)
+				}
+			}
+		}},
 		Stream{"concurrent", func(c *Ctx) {
 			// N ceremonies on ONE RelyingParty over a mutex-protected storage; each must return what it returns alone
 			rounds := c.N(12, 400)
